@@ -325,6 +325,14 @@ def handle (line : String) : String :=
       else if name = "PrecertChain" then decRes (Rfc.decPrecertChainEntry bs) fun e => s!"pre={hexOrDash e.preCertificate} {showChain e.chain}"
       else if name = "SCTList" then decRes (Rfc.decSctList bs) showChain
       else "bad-op"
+  | ["CERTSCTS", h] =>
+    -- the body of the embedded SCT-list extension: "ok n=k <serialized SCTs>" when it is exactly a list of SCTs
+    match (if h = "-" then some [] else fromHex h) with
+    | none => "bad-op"
+    | some bs =>
+      match Rfc.decEmbeddedSctList bs with
+      | some scts => "ok " ++ showChain (scts.filterMap Rfc.sct)
+      | none => "err"
   | ["LH", l] =>
     match fromHex l with
     | some l => toHex (Sha256.hash (Rfc.leafHashInput l))
